@@ -43,6 +43,65 @@ type FnInfo struct {
 
 var fnInfoCache = map[*ssa.Function]*FnInfo{}
 
+// vacuousExitFns: functions whose obligations quantify over the elements of one list (the deferred drain). There a
+// normal return taken only when that list is empty (`if len(list) == 0 { return }`) skips nothing and is treated
+// like a refusal edge by the must-execute analysis. Never set for other functions.
+var vacuousExitFns = map[*ssa.Function]bool{}
+
+// emptyListReturn: b returns normally and is entered only through the edge of `len(x) == 0` (or the false edge of
+// `len(x) != 0` / `len(x) > 0`)
+func emptyListReturn(b *ssa.BasicBlock) bool {
+	if len(b.Preds) != 1 || len(b.Instrs) == 0 {
+		return false
+	}
+	if _, ok := b.Instrs[len(b.Instrs)-1].(*ssa.Return); !ok {
+		return false
+	}
+	for _, ins := range b.Instrs[:len(b.Instrs)-1] {
+		switch ins.(type) {
+		case *ssa.DebugRef, *ssa.RunDefers:
+		default:
+			return false
+		}
+	}
+	p := b.Preds[0]
+	iff, ok := p.Instrs[len(p.Instrs)-1].(*ssa.If)
+	if !ok {
+		return false
+	}
+	cmp, ok := iff.Cond.(*ssa.BinOp)
+	if !ok {
+		return false
+	}
+	isLen := func(v ssa.Value) bool {
+		c, ok := v.(*ssa.Call)
+		if !ok {
+			return false
+		}
+		bi, ok := c.Common().Value.(*ssa.Builtin)
+		return ok && bi.Name() == "len"
+	}
+	isZero := func(v ssa.Value) bool { k, ok := constInt(v); return ok && k == 0 }
+	onTrue := p.Succs[0] == b
+	switch {
+	case isLen(cmp.X) && isZero(cmp.Y):
+		switch cmp.Op {
+		case token.EQL, token.LEQ:
+			return onTrue
+		case token.NEQ, token.GTR:
+			return !onTrue
+		}
+	case isZero(cmp.X) && isLen(cmp.Y):
+		switch cmp.Op {
+		case token.EQL, token.GEQ:
+			return onTrue
+		case token.NEQ, token.LSS:
+			return !onTrue
+		}
+	}
+	return false
+}
+
 func isNilConst(v ssa.Value) bool {
 	c, ok := v.(*ssa.Const)
 	return ok && c.Value == nil
@@ -72,6 +131,10 @@ func GetFnInfo(fn *ssa.Function) *FnInfo {
 		case *ssa.Panic:
 			fi.Refuse[i] = true
 		case *ssa.Return:
+			if vacuousExitFns[fn] && emptyListReturn(b) {
+				fi.Refuse[i] = true
+				continue
+			}
 			if lastErr && len(t.Results) > 0 && !isNilConst(t.Results[len(t.Results)-1]) {
 				// a return whose error result is not the nil constant refuses; a return of a variable error
 				// (e.g. `return err` after a nil check) is treated as refusal only if it is not a plain phi/nil.
